@@ -587,7 +587,8 @@ SPEC = PropSpec(
                  "built-in subclasses and are not re-decided; actual copy/pickle results are not executed."
                  ' R20.e: in both end-to-end documents of C01 every parsed value carries the encoded value as raw_value (a plain built-in, not a view of the packet buffer).'
                  ' __slots__ without __getstate__ on a state class, and dynamically created classes (namedtuple(...)) kept in object state under a name that differs from their type name, make packets unpicklable.'
-                 ' R20.5: everything reachable from the state of each packet the generator yields for the all-features and the hand-written document (items, raw bytes, cursor, any other attribute) is something pickle can serialise (no function defined inside a function, no XML node).'),
+                 ' R20.5: everything reachable from the state of each packet the generator yields for the all-features and the hand-written document (items, raw bytes, cursor, any other attribute) is something pickle can serialise (no function defined inside a function, no XML node).'
+                 ' A custom __copy__ keeps raw bytes and cursor; a binary field longer than 64 KiB stays a bytes value with a bytes raw value.'),
     rule_doc="one obligation per class per rule",
     assumptions=["CPython: subclasses of built-ins without overriding dunders behave like the built-in",
                  "copyreg protocol 2: cls.__new__(cls, *getnewargs), then __dict__ update"],
